@@ -83,10 +83,28 @@ func HarnessC15WS() {
 		defer cancel()
 	}
 	var err error
-	if vhChoice("op", 2) == 0 {
+	switch vhChoice("op", 3) {
+	case 0:
 		_, err = t.Receive(ctx)
-	} else {
+	case 1:
 		err = t.Send(ctx, vhWireEnvelope(0, "m"))
+	default:
+		// Receive with an ended context while a message is already there: the call returns (with the
+		// message or with the context's error) and its reader goroutine ends either way
+		in := vStreamNew("in")
+		b, _ := json.Marshal(vhWireEnvelope(0, "m"))
+		vStreamPut(in, b, 128)
+		fc := &vhFrameConn{in: in}
+		t2 := vhNewWS(fc)
+		env, rerr := t2.Receive(ctx)
+		vReach("c15:ws-operation-returned")
+		vAssert(rerr != nil || env != nil, "c15:ws-receive-returns-something")
+		if rerr != nil && !fc.cut {
+			vAssert(errors.Is(rerr, ctx.Err()), "c15:ws-error-wraps-the-contexts-error")
+		}
+		vQuiesce()
+		vAssert(vThreadsLive() <= 0, "c15:ws-no-goroutine-left-behind")
+		return
 	}
 	vReach("c15:ws-operation-returned")
 	vAssert(err != nil, "c15:ws-operation-fails-once-the-context-ended")
